@@ -467,7 +467,7 @@ def sector_list(N, T, species_blocks=None, spnames=("a", "b")):
         if R.conserved(T, charges(N, "U1U1", (ra, rb))):
             for ka in range(len(ra) + 1):
                 for kb in range(len(rb) + 1):
-                    forms = [dict(sector=(ka, kb)), dict(sector={spnames[0]: ka, spnames[1]: kb}), dict(sector=((len(ra), ka), (len(rb), kb)), symmetry="U1U1")]
+                    forms = [dict(sector=(ka, kb)), dict(sector={spnames[0]: ka, spnames[1]: kb}), dict(sector=((len(ra), ka), (len(rb), kb)), symmetry="U1U1"), dict(sector=[ka, kb]), dict(sector={spnames[1]: kb, spnames[0]: ka})]
                     out.append(("U1U1", (ka, kb), (ra, rb), forms))
     else:
         for na in range(1, N):
@@ -684,8 +684,8 @@ def b_cell(cell, common):
                     # order and from a species-mixing permutation
                     mix = [bylreg[i] for i in shuf(N, a=3, b=2, m=7)]
                     for _, sec, bl, forms in [s_ for s_ in secs if s_[0] == "U1U1"]:
-                        for k_, via in enumerate(("blocked", mix)):
-                            p4, ne4 = check_default_sector(terms, hskw, tf, T, N, reglab, sg, "U1U1", sec, bl, forms[k_], via=via)
+                        for via, fm in (("blocked", forms[0]), (mix, forms[1]), ("blocked", forms[-1]), (None, forms[-1])):
+                            p4, ne4 = check_default_sector(terms, hskw, tf, T, N, reglab, sg, "U1U1", sec, bl, fm, via=via)
                             probs += p4
                             ne += ne4
     except Exception as ex:
@@ -931,10 +931,17 @@ def r_cell(cell, common):
         else:
             ka, kb = (int(v) for v in sec)
             ref_sec = (ka, kb)
+            # every spelling the API accepts denotes the same sector
             if secform == "dict":
                 call_sector = {"a": ka, "b": kb}
+            elif secform == "dict_rev":
+                call_sector = {"b": kb, "a": ka}  # keys in the other order
             elif secform == "pair":
                 call_sector = (ka, kb)
+            elif secform == "list":
+                call_sector = [ka, kb]
+            elif secform == "explicit_list":
+                call_sector = [[len(blocks[0]), ka], [len(blocks[1]), kb]]
             else:
                 call_sector = ((len(blocks[0]), ka), (len(blocks[1]), kb))
             call_sym = "U1U1" if cell.get("symarg") else None
@@ -949,7 +956,7 @@ def r_cell(cell, common):
         except NotImplementedError:
             return table.rejected("HilbertSpace:symmetry-on-non-qubit:NotImplementedError")
         return table.bad(P("symmetry on a non-qubit space accepted", entry="HilbertSpace", kind="no-rejection", **sg))
-    if sym == "U1U1" and spbits is not None and (not blocks[0] or not blocks[1]) and secform != "explicit":
+    if sym == "U1U1" and spbits is not None and (not blocks[0] or not blocks[1]) and secform not in ("explicit", "explicit_list"):
         try:
             HilbertSpace(**kw) if not per_call else HilbertSpace(**kw).get_size(call_sector, call_sym)
         except ValueError as ex:
@@ -1869,16 +1876,17 @@ def rank_cells(nmax, nmax_species, nmax_mixed, quick):
                 na = bits.count(0)
                 for ka in range(na + 1):
                     for kb in range(n - na + 1):
-                        for sf in ("pair", "dict", "explicit"):
-                            if quick and sf == "dict" and lab != "int":
+                        for sf in ("pair", "dict", "dict_rev", "explicit", "list", "explicit_list"):
+                            if quick and sf in ("dict", "list", "explicit_list") and lab != "int":
                                 continue
-                            c = dict(n=n, lab=lab, sup=sup, ord=o, sym="U1U1", sec=[ka, kb], secform=sf, species=list(bits), spform="callable" if (ka + kb) % 2 else "dict", symarg=int(sf == "explicit" or ka == 0))
+                            c = dict(n=n, lab=lab, sup=sup, ord=o, sym="U1U1", sec=[ka, kb], secform=sf, species=list(bits), spform="callable" if (ka + kb) % 2 else "dict", symarg=int(sf.startswith("explicit") or ka == 0))
                             if sf == "pair" or not quick:
                                 # the re-ordered space must keep the species: every
                                 # order option, sector membership decided by species
                                 c["reorder"] = list(REORDERS) if (lab == "int" or not quick) else [REORDERS[len(cells) % len(REORDERS)]]
                             cells.append(c)
-                            if sf == "pair" and lab == "int":
+                            if lab == "int" or sf == "dict_rev":
+                                # the same spelling supplied per call
                                 cells.append(dict({k_: v_ for k_, v_ in c.items() if k_ != "reorder"}, percall=1))
     # preset orderings on (species, position) labels
     for n in range(2, nmax_species + 2):
@@ -1893,6 +1901,9 @@ def rank_cells(nmax, nmax_species, nmax_mixed, quick):
                 for ka in range(na + 1):
                     for kb in range(n - na + 1):
                         cells.append(dict(n=n, lab="spin", sup=sup, ord=o, sym="U1U1", sec=[ka, kb], secform="pair", species=bits, spform="callable", symarg=0, reorder=["interleaved", "blocked", "seq_shuf", "key_last", "seq_rev"]))
+                        for sf in ("dict", "dict_rev"):
+                            cells.append(dict(n=n, lab="spin", sup=sup, ord=o, sym="U1U1", sec=[ka, kb], secform=sf, species=bits, spform="dict", symarg=int(sf == "dict"), reorder=["interleaved" if o == "blocked" else "blocked"]))
+                            cells.append(dict(n=n, lab="spin", sup=sup, ord=o, sym="U1U1", sec=[ka, kb], secform=sf, species=bits, spform="dict", symarg=0, percall=1))
     # mixed radix
     for n in range(1, nmax_mixed + 1):
         for dims in itertools.product((1, 2, 3), repeat=n):
